@@ -11,7 +11,8 @@ open Proto
 fields: e2e, flags (submodules, meson), tree tokens, VCS-ignored paths, submodule paths, binary paths,
         expression table, dep5, then one group per REUSE.toml:
           directory ("/"-joined, hex), "!" (does not load) or the number n of tables, then n × (globs, precedence, copyright lines, expressions)
-tree tokens: `F:<name>:<bytes>` `L:<name>` `D:<name>` … `E`
+tree tokens: `F:<name>:<bytes>` `D:<name>` … `E`; symbolic links with what they resolve to (the harness follows
+             links to links): `L:<name>` dangling, `LF:<name>:<bytes>` a regular file, `LD:<name>` … `E` a directory
 expression table: entries `text/parses/keys/rendering`, separated by blanks (license-expression is an oracle)
 dep5: `-` (not parsed / absent) or `=` followed by blank-separated paragraphs `globs/copyright/licence`
 
@@ -35,7 +36,17 @@ partial def parseETree : List String → Option (ETree × List String)
     | ["L", n] => do
         let name ← decodeText n
         let (more, rest') ← parseETree rest
-        pure ((String.ofList name, ENode.symlink) :: more, rest')
+        pure ((String.ofList name, ENode.symlink .dangling) :: more, rest')
+    | ["LF", n, bs] => do
+        let name ← decodeText n
+        let content ← decodeBytes bs
+        let (more, rest') ← parseETree rest
+        pure ((String.ofList name, ENode.symlink (.file content)) :: more, rest')
+    | ["LD", n] => do
+        let name ← decodeText n
+        let (sub, rest1) ← parseETree rest
+        let (more, rest2) ← parseETree rest1
+        pure ((String.ofList name, ENode.symlink (.dir sub)) :: more, rest2)
     | ["D", n] => do
         let name ← decodeText n
         let (sub, rest1) ← parseETree rest
@@ -91,10 +102,12 @@ partial def decodeTomls : List String → Option (List (List String × Option (L
 where
   splitDir (dir : Text) : List String := if dir.isEmpty then [] else (String.ofList dir).splitOn "/"
 
-/-- every regular file of the tree -/
+/-- every regular file of the tree (what symbolic links resolve to included: more than the model reads) -/
 partial def allContents : ENode → List Bytes
   | .file c => [c]
-  | .symlink => []
+  | .symlink .dangling => []
+  | .symlink (.file c) => [c]
+  | .symlink (.dir cs) => cs.flatMap fun e => allContents e.2
   | .dir cs => cs.flatMap fun e => allContents e.2
 
 def joinPath (p : List String) : Text := ("/".intercalate p).toList
